@@ -407,13 +407,23 @@ structure EnumDesc where
   intr : Intr := {}                  -- what the objects the scan meets carry under these names by themselves
 deriving Repr
 
+/-- where the scan looks for the decorator types on a function object with `__dict__` = `dict`:
+    * `hasattr(attribute, t)` / `getattr(attribute, t)` — whatever the object answers to: its `__dict__` first (what setattr wrote wins),
+      then what the type defines by itself;
+    * `t in vars(function)` / `vars(function)[t]` — the `__dict__` alone; a name that functions define by themselves (`__doc__`,
+      `__name__`) is a slot of the function object: `setattr` writes the slot, the name never shows up in `__dict__` -/
+def marksOf (ia : Intr) (dict : List (Key × Val)) : List (Key × Val) :=
+  if scanReadsMarksFromFunctionDict then dict.filter fun kv => (dictGet kv.1 ia.fn).isNone else dict ++ ia.fn
+
+def methodAttr (k : FKind) (c : Nat) (n : Name) (gen : Nat) : Attr :=
+  match k with
+  | .inst => .bound c n gen
+  | .static => .plainFn c n gen
+  | .cls => .clsBound c n gen
+
+/-- `getattr(self, n)` answered by the class attribute `m` of class `c` -/
 def getattrMember (c : Nat) (n : Name) (tvar : TArg) (ia : Intr) : MemberDef → Got
-  | .func k apps =>
-    let s := applyApps apps
-    .value (match k with
-      | .inst => .bound c n s.gen
-      | .static => .plainFn c n s.gen
-      | .cls => .clsBound c n s.gen) (s.dict ++ ia.fn)       -- `__dict__` first (what setattr wrote wins), then the type's own
+  | .func k apps => let s := applyApps apps; .value (methodAttr k c n s.gen) (marksOf ia s.dict)
   | .other oid attrs => .value (.obj oid) attrs
   | .raising e => .raises e
   | .typeVarProp => .value (.typeArg tvar) ia.cls
@@ -429,7 +439,7 @@ deriving DecidableEq, Repr
 abbrev InstNs := List (Name × InstVal)
 
 def getattrInst (ia : Intr) : InstVal → Got
-  | .fn fid apps => let s := applyApps apps; .value (.instFn fid s.gen) (s.dict ++ ia.fn)
+  | .fn fid apps => let s := applyApps apps; .value (.instFn fid s.gen) (marksOf ia s.dict)
   | .obj oid attrs => .value (.obj oid) attrs
 
 def dedup : List Name → List Name
@@ -449,19 +459,52 @@ def MemberDef.isDataDescr : MemberDef → Bool
   | .raising _ | .typeVarProp | .typeVarsProp | .classNameProp => true
   | _ => false
 
-/-- `getattr(self, n)`: data descriptors of the classes, then the instance `__dict__`, then the other class attributes -/
-def getattrSelf (t : Table) (mro : List Nat) (tvar : TArg) (ia : Intr) (inst : InstNs) (n : Name) : Option Got :=
+/-- the raw attribute behind a name: a class attribute as it stands in the namespace, or an entry of the instance `__dict__` -/
+inductive Raw where
+  | cls (c : Nat) (m : MemberDef)
+  | inst (iv : InstVal)
+deriving DecidableEq, Repr
+
+/-- which object answers the name — the same for `getattr(self, n)` and `inspect.getattr_static(self, n)`: data descriptors of the
+    classes, then the instance `__dict__`, then the other class attributes -/
+def rawSelf (t : Table) (mro : List Nat) (inst : InstNs) (n : Name) : Option Raw :=
   match resolve t mro n, inst.find? (fun p => p.1 = n) with
-  | some cm, some p => some (if cm.2.isDataDescr then getattrMember cm.1 n tvar ia cm.2 else getattrInst ia p.2)
-  | some cm, none => some (getattrMember cm.1 n tvar ia cm.2)
-  | none, some p => some (getattrInst ia p.2)
+  | some cm, some p => some (if cm.2.isDataDescr then .cls cm.1 cm.2 else .inst p.2)
+  | some cm, none => some (.cls cm.1 cm.2)
+  | none, some p => some (.inst p.2)
   | none, none => none
 
+/-- `getattr(self, n)` on that object -/
+def getattrRaw (n : Name) (tvar : TArg) (ia : Intr) : Raw → Got
+  | .cls c m => getattrMember c n tvar ia m
+  | .inst iv => getattrInst ia iv
+
+/-- does the scan unwrap this kind of method (`raw.__func__ if isinstance(raw, (staticmethod, classmethod)) else raw`)?  A wrapper that
+    is not unwrapped is no function: passed over -/
+def unwrapped : FKind → Bool
+  | .inst => true
+  | .static => scanUnwraps.contains "staticmethod"
+  | .cls => scanUnwraps.contains "classmethod"
+
+/-- what the scan sees of the object behind the name `n` (`none`: passed over without a look at its attributes):
+    without the look at the raw attribute, `getattr(self, n)` of whatever is there (properties are evaluated); with it, only functions —
+    plain, or wrapped in a staticmethod / classmethod that is unwrapped — and, if the method test is there, only when `getattr(self, n)`
+    is a method made from that function (a function in the instance `__dict__` stays a plain function: it is not) -/
+def seen (n : Name) (tvar : TArg) (ia : Intr) (r : Raw) : Option Got :=
+  if !scanLooksAtRawAttribute then some (getattrRaw n tvar ia r) else
+  match r with
+  | .cls c (.func k apps) => if unwrapped k then some (getattrMember c n tvar ia (.func k apps)) else none
+  | .inst (.fn fid apps) => if scanRequiresMethodOfInstance then none else some (getattrInst ia (.fn fid apps))
+  | _ => none
+
 def view (t : Table) (mro : List Nat) (tvar : TArg) (ia : Intr) (inst : InstNs) : List (Name × Got) :=
-  (dirNames t mro inst).filterMap fun n => (getattrSelf t mro tvar ia inst n).map fun g => (n, g)
+  (dirNames t mro inst).filterMap fun n => ((rawSelf t mro inst n).bind (seen n tvar ia)).map fun g => (n, g)
 
 /-- `attribute_name.startswith('__')` -/
-def skipName (n : Name) : Bool := decide (skipPrefixUnderscores ≤ n.unders)
+def skipName (n : Name) : Bool :=
+  match skipPrefixUnderscores with
+  | some k => decide (k ≤ n.unders)
+  | none => false
 
 abbrev Dict := List (Key × List (Attr × Val))
 
